@@ -498,6 +498,16 @@ impl World {
                             && self.backlog[e][0] < self.opts[e].accept_cap && self.backlog[e][1] < self.opts[e].bind_cap;
                         if sure { self.bind_due[e] += 1; } else { self.bind_unsure[e] = true; }
                     }
+                    if op == 2 && frame_valid(t[2]) && up_e && !lagging && !self.in_batch
+                        && self.backlog[e][0] < self.opts[e].accept_cap && (self.opts[e].bind_cap == 0 || self.backlog[e][1] < self.opts[e].bind_cap) {
+                        // C05: the peer's Reset of an established stream reaches a running endpoint whose receive
+                        // loop is not held up: from now on writes on that stream fail with BrokenPipe — also when
+                        // the peer had finished its own direction before (half-close, then abort)
+                        if let Some(h) = self.est[e].get(&id).copied() {
+                            self.peer_reset.insert((e, h));
+                            *self.mon.entry("reset-delivered-to-stream/watched").or_insert(0) += 1;
+                        }
+                    }
                     if (op == 2 || op == 3) && frame_valid(t[2]) { self.bind_ids[e].remove(&id); }
                     if op == 2 && frame_valid(t[2]) && up_e && !lagging { self.free_ids[e].insert(id); }
                     if op == 0 && frame_valid(t[2]) && id != 0 && self.free_ids[e].contains(&id) && up_e && self.view[e].mux_alive && !self.in_batch && !lagging {
